@@ -59,21 +59,21 @@ type rcModel struct {
 }
 
 type node struct {
-	kind   string // "rc","mc","fs"
-	rc     wazero.RuntimeConfig
-	mc     wazero.ModuleConfig
-	fs     wazero.FSConfig
-	mrc    rcModel
-	mmc    mcModel
-	mfs    fsModel
-	sk     sock.Config
-	msk    []string // model of a sock.Config: "host:port" in order
-	snap   string
+	kind string // "rc","mc","fs"
+	rc   wazero.RuntimeConfig
+	mc   wazero.ModuleConfig
+	fs   wazero.FSConfig
+	mrc  rcModel
+	mmc  mcModel
+	mfs  fsModel
+	sk   sock.Config
+	msk  []string // model of a sock.Config: "host:port" in order
+	snap string
 	// unmodelled: derived through an input the documentation does not define (a nil fs.FS mount):
 	// only the immutability of every earlier value is checked, not what a guest observes
 	unmodelled bool
-	parent int
-	how    string
+	parent     int
+	how        string
 }
 
 func snapshot(n *node) string {
@@ -173,6 +173,20 @@ func (tr *tree) pick(t *rapid.T, kind string) int {
 		}
 	}
 	return rapid.SampledFrom(idx).Draw(t, kind+"-node")
+}
+
+// pickPref is pick, but in one of three draws restricted to the nodes satisfying pref (if any).
+func (tr *tree) pickPref(t *rapid.T, kind string, pref func(*node) bool) int {
+	var idx []int
+	for i, n := range tr.nodes {
+		if n.kind == kind && pref(n) {
+			idx = append(idx, i)
+		}
+	}
+	if len(idx) > 0 && rapid.IntRange(0, 2).Draw(t, "prefer") == 0 {
+		return rapid.SampledFrom(idx).Draw(t, kind+"-preferred-node")
+	}
+	return tr.pick(t, kind)
 }
 
 func (tr *tree) noteChild(parent int, method string) {
@@ -404,7 +418,7 @@ func (tr *tree) genStep(t *rapid.T) step {
 		case "WithName":
 			args = []string{rapid.SampledFrom([]string{"", "m1", "m2"}).Draw(t, "name")}
 		case "WithFSConfig":
-			args = []string{fmt.Sprint(tr.pick(t, "fs"))}
+			args = []string{fmt.Sprint(tr.pickPref(t, "fs", func(n *node) bool { return n.unmodelled }))}
 		case "WithFS":
 			args = []string{fmt.Sprint(rapid.IntRange(0, 5).Draw(t, "mount"))}
 		case "WithStdin":
@@ -414,6 +428,10 @@ func (tr *tree) genStep(t *rapid.T) step {
 	case "fs":
 		pi := tr.pick(t, "fs")
 		method := rapid.SampledFrom([]string{"WithFSMount", "WithFSMount", "WithDirMount", "WithReadOnlyDirMount", "WithFSMount", "WithDirMount", "WithFSMountNil"}).Draw(t, "method")
+		if ms := tr.nodes[pi].mfs.mounts; method == "WithFSMountNil" && len(ms) >= 2 && rapid.Bool().Draw(t, "nil-over-existing") {
+			// a nil mount over a guest path that is mounted and is followed by other mounts
+			return step{"fs." + method, pi, []string{"0", ms[rapid.IntRange(0, len(ms)-2).Draw(t, "which")].Guest}}
+		}
 		return step{"fs." + method, pi, []string{fmt.Sprint(rapid.IntRange(0, 5).Draw(t, "mount")), rapid.SampledFrom(guestPaths).Draw(t, "guest")}}
 	case "rc":
 		pi := tr.pick(t, "rc")
@@ -434,7 +452,7 @@ func (tr *tree) genStep(t *rapid.T) step {
 		if rapid.IntRange(0, 5).Draw(t, "sock") == 0 {
 			a = "sock"
 		}
-		return step{"use-mc", tr.pick(t, "mc"), []string{a}}
+		return step{"use-mc", tr.pickPref(t, "mc", func(n *node) bool { return n.unmodelled }), []string{a}}
 	default:
 		return step{"use-rc", tr.pick(t, "rc"), nil}
 	}
@@ -634,11 +652,28 @@ func eqStrs(a, b []string) bool {
 
 func (tr *tree) useMC(i int, withSock bool) string {
 	n := tr.nodes[i]
-	if n.kind != "mc" || n.unmodelled {
+	if n.kind != "mc" {
+		return ""
+	}
+	ctx := context.Background()
+	if n.unmodelled {
+		// what a guest sees with a nil mount is not documented (the WASI functions that look at
+		// such a pre-open fail inside the host), but "instantiating with a configuration does not
+		// change it" still holds: the value is used for two instantiations and the snapshots of
+		// all nodes are compared afterwards, as after every step
+		tr.uses++
+		evid.Label("use-unmodelled-node-twice", 1)
+		for k := 0; k < 2; k++ {
+			rt := wazero.NewRuntimeWithConfig(ctx, wazero.NewRuntimeConfigInterpreter())
+			_, err := wasiproxy.New(ctx, rt, n.mc, 1, -1)
+			rt.Close(ctx)
+			if err != nil {
+				return fmt.Sprintf("using node %s failed: instantiate: %v", tr.describe(i), err)
+			}
+		}
 		return ""
 	}
 	tr.uses++
-	ctx := context.Background()
 	got, msg := observe(ctx, n.mc, withSock)
 	if msg != "" {
 		return fmt.Sprintf("using node %s failed: %s", tr.describe(i), msg)
